@@ -64,6 +64,9 @@ type Body struct {
 	Ctype    string   `json:"ctype"`
 	Mentions []string `json:"mentions"`
 	Vals     []KV     `json:"vals"`
+	// how the body travels ("sized" | "chunked" | "none"): chosen by the harness per case, no part of
+	// the specification reads it - the life cycle must not depend on it
+	Framing string `json:"framing"`
 }
 
 type Handler struct {
